@@ -2,7 +2,7 @@
 import re
 from . import common, projgen, projcheck, projrun, ninjaparse
 
-PROF = projgen.profile(n_builders=(2, 4), n_apps=(2, 3), p_rules_override=0.5, p_same_override=0.5, p_always=0.3, p_nonshare=0.25,
+PROF = projgen.profile(p_rule_text_newline=0.05, n_builders=(2, 4), n_apps=(2, 3), p_rules_override=0.5, p_same_override=0.5, p_always=0.3, p_nonshare=0.25,
                        p_custom_build=0.15, p_download=0.12, p_build_dep=0.25, p_global_build_dep=0.1, p_subdir=0.4,
                        p_tasks=0.05, p_nobindir=0.06, p_cli_builders=0.2, p_cli_apps=0.2)
 OBS = ("status", "decision", "loaded", "ninja")
